@@ -35,8 +35,9 @@ func (r *Rnd) N(n int) int {
 // P is true with probability num/den.
 func (r *Rnd) P(num, den int) bool { return r.N(den) < num }
 
-// Fork derives an independent generator.
-func (r *Rnd) Fork(tag uint64) *Rnd { return NewRnd(r.U64() ^ tag*0xD1B54A32D192ED03) }
+// Fork derives an independent generator from the seed of r and a tag; it does not advance r, so the
+// derived generator depends on the tag only, not on how many forks were taken before.
+func (r *Rnd) Fork(tag uint64) *Rnd { return NewRnd(r.s ^ (tag+1)*0xD1B54A32D192ED03) }
 
 // Mode steers value generation.
 type Mode int
